@@ -57,7 +57,12 @@ def _v_no_dup_values(cfg, value):
 
 
 # name -> (field validator handed to the library, reference predicate "value is acceptable")
+def _v_identity(cfg, value):
+    return value
+
+
 CUSTOM_VALIDATORS = {
+    "identity": (_v_identity, lambda v: True),
     "sum<10": (_v_sum_lt_10, lambda v: sum(v) < 10),
     "even": (_v_even, lambda v: v % 2 == 0),
     "distinct-values": (_v_no_dup_values, lambda v: len(set(v.values())) == len(v)),
